@@ -1,5 +1,3 @@
-//go:build !v4
-
 package main
 
 import (
@@ -8,8 +6,6 @@ import (
 	"math/rand"
 	"reflect"
 	"sort"
-
-	jsonpatch "github.com/evanphx/json-patch/v5"
 
 	"verifharness/jsonread"
 	"verifharness/lib"
@@ -82,7 +78,7 @@ func fromGo(v interface{}) (*jsonread.Value, error) {
 	return nil, fmt.Errorf("unexpected dynamic type %T", v)
 }
 
-var probeDocs = [][]byte{[]byte(`{"a":{"b":[1,2]},"c":1}`), []byte(`[1,{"a":2}]`), []byte(`{"a":null}`), []byte(`{}`)}
+var probeDocs = [][]byte{[]byte(`{"a":{"b":[1,2]},"c":1}`), []byte(`[1,{"a":2}]`), []byte(`{"a":null}`), []byte(`{}`), []byte(`null`), []byte(`[null]`)}
 
 func (e *engine) checkDecodeLine(worker int, raw []byte) error {
 	var ln decodeLine
@@ -97,7 +93,7 @@ func (e *engine) checkDecodeLine(worker int, raw []byte) error {
 	e.rep.Label(fmt.Sprintf("Decode_%v", ln.Accept))
 	rnd := rand.New(rand.NewSource(hashSeed(raw, e.seed)))
 	for si, text := range [][]byte{jsonread.Canonical.Render(pv), jsonread.Spelling{Rnd: rnd}.RenderDoc(pv)} {
-		var p jsonpatch.Patch
+		var p lib.Patch
 		var derr error
 		viol := func(kind, detail string, extra map[string]interface{}) *lib.Violation {
 			c := map[string]interface{}{"fam": "decode", "patch_text": string(text), "spec_accept": ln.Accept, "err": errString(derr), "line": ln, "spelling": si}
@@ -112,6 +108,13 @@ func (e *engine) checkDecodeLine(worker int, raw []byte) error {
 		e.rep.Count("executions", 1)
 		if pan != "" {
 			e.rep.Report(viol("panic", "DecodePatch panicked: "+firstLine(pan), nil))
+			continue
+		}
+		if lib.Dialect == "v4" {
+			// the legacy DecodePatch validates nothing (outside C11): whatever it accepts must be applicable without a panic
+			if derr == nil {
+				e.probeApply(worker, p, viol, hang)
+			}
 			continue
 		}
 		if (derr == nil) != ln.Accept {
@@ -190,21 +193,27 @@ func (e *engine) checkDecodeLine(worker int, raw []byte) error {
 			continue
 		}
 		// an accepted patch can be applied without panicking (this is why the boundary matters)
-		for _, d := range probeDocs {
-			for _, o := range []lib.Opts{{Neg: true, Esc: true}, {Ensure: true, Allow: true}} {
-				var aerr error
-				pan := e.wd.Guard(worker, hang, func() { _, aerr = p.ApplyWithOptions(d, o.Native()) })
-				e.rep.Count("executions", 1)
-				if pan != "" {
-					e.rep.Report(viol("panic", "Apply of an accepted patch panicked: "+firstLine(pan), map[string]interface{}{"doc": string(d), "opts": o}))
-				}
-				_ = aerr
-			}
-		}
+		e.probeApply(worker, p, viol, hang)
 	}
 	e.rep.Nontrivial(string(ln.Patch))
 	if !ln.Accept || len(ln.Acc) == 2 {
 		e.rep.Sample(map[string]interface{}{"patch": string(jsonread.Canonical.Render(pv)), "spec_accept": ln.Accept})
 	}
 	return nil
+}
+
+// probeApply applies a decoded patch to the probe documents under recover().
+func (e *engine) probeApply(worker int, p lib.Patch, viol func(string, string, map[string]interface{}) *lib.Violation, hang func() *lib.Violation) {
+	for _, d := range probeDocs {
+		for _, o := range []lib.Opts{{Neg: true, Esc: true}, {Ensure: true, Allow: true}} {
+			if !lib.Supported(o) {
+				continue
+			}
+			pan := e.wd.Guard(worker, hang, func() { lib.ApplyDecoded(p, d, o, "") })
+			e.rep.Count("executions", 1)
+			if pan != "" {
+				e.rep.Report(viol("panic", "Apply of a patch that DecodePatch accepted panicked: "+firstLine(pan), map[string]interface{}{"doc": string(d), "opts": o, "panic": pan}))
+			}
+		}
+	}
 }
